@@ -43,7 +43,7 @@ KIND = {
     3: "EA replaced its tour by a longer one",
     4: "FEA length outside 0..upper bound",
     5: "frequency table addressed outside 0..upper bound (guard cell hit)",
-    6: "the kernel raised an exception",
+    6: "the move kernel / solve() raised an exception",
 }
 
 
@@ -264,18 +264,27 @@ class SolveRunner:
         """-> (kind or -1, register index, n registers, table info)."""
         s = self.stub
         s.reset(start, script)
-        if self.proxy is None:
-            self.alg.solve(s)
-            dmg = 0
-        else:
-            old = self.fm.np
-            self.fm.np = self.proxy
-            self.proxy.buf = self.proxy.view = None
-            try:
+        self.error = None
+        try:
+            if self.proxy is None:
                 self.alg.solve(s)
-            finally:
-                self.fm.np = old
-            dmg = self.proxy.guard_damage()
+                dmg = 0
+            else:
+                old = self.fm.np
+                self.fm.np = self.proxy
+                self.proxy.buf = self.proxy.view = None
+                try:
+                    self.alg.solve(s)
+                finally:
+                    self.fm.np = old
+                dmg = self.proxy.guard_damage()
+        except HarnessError:
+            raise
+        except Exception as e:  # noqa
+            if s.bad is not None:
+                return s.bad[0], s.bad[1]
+            self.error = f"{type(e).__name__}: {e}"
+            return 6, len(s.trace)
         if s.pos != s.len:
             raise HarnessError("solve() returned before the script ended")
         if s.bad is not None:
@@ -337,7 +346,10 @@ def solve_case(m, algo, start, script):
     r = SolveRunner(m, algo)
     kind, at = r.run(tuple(start), tuple(script))
     mt, _ = model_trace(algo, m, start, script)
-    return kind, at, r.stub.trace, mt
+    tr = list(r.stub.trace)
+    if r.error:
+        tr.append(r.error)
+    return kind, at, tr, mt
 
 
 def report_solve(ctx, fam, key, rec):
@@ -355,7 +367,7 @@ def report_solve(ctx, fam, key, rec):
         f"{KIND[kind]}: {algo.upper()} solve() on n={n} matrix={m} start "
         f"tour={list(start)} draws={draws}: hand-over #{at} (0 = initial "
         f"evaluation) was {trace[at] if at < len(trace) else None}, exact "
-        f"length of that x = {M.tour_length_exact(m, trace[at][0]) if at < len(trace) and M.is_permutation(trace[at][0], n) else 'n/a'}, "  # noqa
+        f"length of that x = {M.tour_length_exact(m, trace[at][0]) if at < len(trace) and isinstance(trace[at], tuple) and M.is_permutation(trace[at][0], n) else 'n/a'}, "  # noqa
         f"upper bound={sum(max(r) for r in m)}; "
         f"reference model sequence={mt}",
         {"engine": "solve", "algo": algo, "matrix": m, "start": list(start),
